@@ -11,6 +11,8 @@ PROP = "C03"
 def run(ctx):
     if ctx.replay:
         return hc.replay(ctx, PROP)
+    import X_dualsel
+    _bg_dualsel = vlib.background(ctx, X_dualsel.run_extra, "X_dualsel")
     T = ctx.thorough()
     ctx.assumptions += [
         "only well-formed queries (QR=0, one question, no answer/authority, <=1 additional) are owed a reply",
@@ -107,5 +109,4 @@ def run(ctx):
         if r.get("traces"):
             ctx.sample({"chain": hc.impls(c), "mode": c["mode"], "trace": r["traces"][0][:4] + r["traces"][0][-1:]})
     # the lead's extra coverage of dual_selector (spec/DualSelector.tla, harness/drv_dualsel)
-    import X_dualsel
-    X_dualsel.run_extra(ctx)
+    _bg_dualsel.join()
